@@ -490,6 +490,9 @@ func record(r *report.Run, c *Case, out *outcome) {
 		kind = "corrupt"
 	}
 	fork := refspec.ForkNames[out.fork]
+	if out.tag != "" {
+		r.Class("scenario:" + out.tag)
+	}
 	if out.nontrivial {
 		r.NonTrivial(out.key)
 		r.Class(out.key)
